@@ -16,6 +16,7 @@ pub fn self_check_all() -> Result<(), String> {
     isaac::self_check()?;
     jitter::self_check()?;
     gf2::self_check()?;
+    seeding::self_check()?;
     Ok(())
 }
 
